@@ -70,7 +70,8 @@ type FS struct {
 	SubjCalls int
 	crashed   map[string]bool
 	tmpCount  int
-	Quiet     bool // do not emit trace events (used while building the initial tree)
+	cwd       string // simulated working directory ("" = "/")
+	Quiet     bool   // do not emit trace events (used while building the initial tree)
 
 	// AfterOp, when set, runs after every recorded call (the harness checks
 	// its invariants at every instant of the file-system history here).
@@ -128,10 +129,19 @@ func clean(p string) string {
 		return ""
 	}
 	if !strings.HasPrefix(p, "/") {
-		p = "/" + p // the simulated cwd is /
+		// relative to the simulated working directory ("/" unless the run moved it)
+		wd := "/"
+		if cur != nil && cur.cwd != "" {
+			wd = cur.cwd
+		}
+		p = wd + "/" + p
 	}
 	return path.Clean(p)
 }
+
+// Chdir moves the simulated process's working directory (harness side: the
+// process the library runs in changes directory between two calls).
+func (f *FS) Chdir(dir string) { f.cwd = path.Clean(dir) }
 
 // lookup walks to p. It returns the inode (nil if missing), its parent (nil if
 // the parent chain is broken) and an errno describing a broken chain.
